@@ -65,20 +65,31 @@ Init == /\ st = FixState /\ hist = <<>>
         /\ PrintT(<<"FIX", ToJson(Fix)>>)
 
 Next == /\ Len(hist) < Depth
-        /\ \E a \in Actions(st) : \E o \in Do(st, a) :
+        /\ LET so == SpecObs(st)
+               cx == P!Ctx(so) IN
+           \E a \in Actions(st) : \E o \in Do(st, a) :
+              LET noeffect == o.st = st IN
               /\ st' = o.st
               /\ hist' = Append(hist, a)
-              /\ (Emit => PrintT(<<"T", ToJson([h |-> hist, a |-> a, res |-> o.res, post |-> Red(o.st)])>>))
-              /\ (CheckProps =>
-                    LET r == P!ActionProps(SpecObs(st), a, o.res, SpecObs(o.st)) IN
-                    \A k \in DOMAIN r : r[k] \/ (PrintT(<<"APROPFAIL", k, ToJson([h |-> hist, a |-> a, res |-> o.res])>>) /\ Assert(FALSE, k)))
+              /\ (IF Emit THEN PrintT(<<"T", ToJson([h |-> hist, a |-> a, res |-> o.res,
+                                                     post |-> IF noeffect THEN [same |-> TRUE] ELSE Red(o.st)])>>) ELSE TRUE)
+              /\ (IF ~CheckProps THEN TRUE
+                  ELSE IF noeffect /\ o.res.t = "err" THEN
+                       \* a failing call without effect satisfies every action predicate except possibly the lock one
+                       (IF o.res.v = "ParentElementLocked"
+                        THEN PrintT(<<"APROPFAIL", "NoPanicNoHangNoSpuriousLock", ToJson([h |-> hist, a |-> a, res |-> o.res])>>) ELSE TRUE)
+                  ELSE LET so2 == SpecObs(o.st)
+                           r == P!ActionPropsCx(so, cx, a, o.res, so2, P!Ctx(so2)) IN
+                       \A k \in DOMAIN r : IF r[k] THEN TRUE ELSE PrintT(<<"APROPFAIL", k, ToJson([h |-> hist, a |-> a, res |-> o.res])>>))
 
 Spec == Init /\ [][Next]_<<st, hist>>
 View == <<st, Len(hist)>>
 
+\* a monitor rather than a stopping invariant: every failing (state, predicate) is printed with its witness history and
+\* the exploration goes on, so one run collects all distinct failures
 InvState == CheckProps =>
               LET r == P!StateProps(SpecObs(st)) IN
-              \A k \in DOMAIN r : r[k] \/ (PrintT(<<"PROPFAIL", k, ToJson(hist)>>) /\ FALSE)
+              \A k \in DOMAIN r : IF r[k] THEN TRUE ELSE PrintT(<<"PROPFAIL", k, ToJson(hist)>>)
 
 SchemaDef == SchemaDataDef
 =============================================================================
